@@ -486,7 +486,9 @@ func mustHex(s string) []byte { b, _ := hex.DecodeString(s); return b }
 
 func confs(thorough bool) []Conf {
 	m := func(n int) []string {
-		all := []string{"020000000a01", "020000000b02", "020000000c03fffe", "020000000d04", "020000000e05"}
+		// adversarial choice: the 8-byte address starts with the first client's 6 bytes, the
+		// second differs from the first only in its last byte
+		all := []string{"020000000a01", "020000000a02", "020000000a01fffe", "820000000a01", "020000000e05"}
 		return all[:n]
 	}
 	cs := []Conf{
